@@ -647,11 +647,17 @@ async def _run_raw(case, exact):
     names = sorted({k for r in case["rows"] for k in r} | {str(c[1]) for c in case["calls"] if c[0] == "m"})
     chans = {n: I["Broadcast"](name=f"c{n}") for n in names}
     b = fe.FormulaBuilder("f", mk)
+    first_rx = {}
     for c in case["calls"]:
         if c[0] == "o":
             b.push_oper(c[1])
         elif c[0] == "m":
-            b.push_metric(f"e{c[1]}", chans[str(c[1])].new_receiver(), nones_are_zeros=bool(c[2]))
+            if len(c) > 3 and c[3] and c[1] in first_rx:
+                rxm = first_rx[c[1]]                       # the SAME receiver object as the first push of this name
+            else:
+                rxm = chans[str(c[1])].new_receiver()      # a fresh receiver of the same channel
+            first_rx.setdefault(c[1], rxm)
+            b.push_metric(f"e{c[1]}", rxm, nones_are_zeros=bool(c[2]))
         elif c[0] == "k":
             b.push_constant(as_number(dec(c[1]), exact))
         elif c[0] == "clip":
@@ -1527,7 +1533,13 @@ def gen_ho_case(rng):
         extra["finals"] = [pick() for _ in range(rng.randint(0 if extra["pre"] else 1, 2))]
     if rng.random() < 0.15 and len(names) > 1:      # different operand engines with EQUAL names
         lab = rng.choice(["power", "e0"])
-        extra["names"] = {str(n): lab for n in rng.sample(names, rng.randint(2, len(names)))}
+        group = rng.sample(names, rng.randint(2, len(names)))
+        extra["names"] = {str(n): lab for n in group}
+        rest = [n for n in names if n not in group]
+        if rest and rng.random() < 0.6:     # another engine LITERALLY named like a disambiguated duplicate
+            extra["names"][str(rng.choice(rest))] = f"{lab} [{rng.choice([2, 2, 3])}]"
+        elif len(group) > 2 and rng.random() < 0.5:
+            extra["names"][str(group[-1])] = f"{lab} [2]"
     if rng.random() < 0.2:                          # the same instants written in different time zones
         extra["zones"] = {str(n): rng.choice(ZONES) for n in names}
     if rng.random() < 0.15:                         # several engines sharing the input engines, some stopped mid-run
@@ -1575,6 +1587,12 @@ def gen_raw_case(rng):
                 calls.append(["k", rng.choice(VALS)])
             else:
                 calls.append(["clip", rng.choice([None, 0]), rng.choice([None, 3])])
+    seen = set()
+    for c in calls:       # a repeated push of a name re-uses the receiver object of its first push half of the time
+        if c[0] == "m":
+            if c[1] in seen and rng.random() < 0.5:
+                c.append(True)
+            seen.add(c[1])
     names = sorted({c[1] for c in calls if c[0] == "m"})
     return {"kind": "raw", "calls": calls, "wellformed": wellformed,
             "rows": gen_rows(rng, names, rng.randint(1, 3), rng.choice([0.0, 0.3]))}
